@@ -645,6 +645,9 @@ Proof.
   apply (Hd (rid c) (rid_in_ids c)). apply in_flat_map. exists g. split; auto. rewrite <- Eg. apply rid_in_ids.
 Qed.
 
+Lemma perm3 : forall {A} (a b c : list A), Permutation (a ++ b ++ c) (b ++ a ++ c).
+Proof. intros. rewrite !app_assoc. apply Permutation_app_tail. apply Permutation_app_comm. Qed.
+
 (* what is adjacent through the part `up` hanging above t *)
 Definition adj_up (up : option rtree) (top a b : nat) : Prop :=
   exists u, up = Some u /\ (adjacent u a b \/ (a = top /\ b = rid u) \/ (a = rid u /\ b = top)).
@@ -682,10 +685,8 @@ Proof.
                                (ids (RNode i cs) ++ flat_map ids (opt_list up))).
     { simpl. rewrite app_nil_r. rewrite flat_map_app.
       apply Permutation_sym. apply Permutation_cons_app. apply Permutation_sym.
-      rewrite app_assoc. eapply perm_trans; [apply Permutation_app_tail; apply Permutation_app_comm|].
-      rewrite <- app_assoc. eapply perm_trans; [apply Permutation_app_comm|]. rewrite <- app_assoc.
-      eapply perm_trans; [apply Permutation_app_comm|]. rewrite <- app_assoc.
-      eapply perm_trans; [apply Permutation_app_comm|]. rewrite <- app_assoc.
+      eapply perm_trans; [apply perm3|].
+      eapply perm_trans; [apply Permutation_app_comm|].
       apply Permutation_app_tail. exact (Permutation_flat_map ids Pc). }
     destruct (IH c Hc x (Some u') r) as [Hr [Hp Hadj]]; auto.
     { eapply Permutation_NoDup; [apply Permutation_sym; exact Pids | exact Hnd]. }
